@@ -313,6 +313,9 @@ DsSet(d, k, g) ==
 DsSetBad(d, k, o) ==     \* anything that is not a Datagroup is refused
   /\ En("dsset") /\ Step([op |-> "dssetbad", d |-> d, k |-> k, o |-> o]) /\ UNCHANGED <<heap, bufs, dgs, dss>>
   /\ res' = Exc("TypeError")
+DsUpdateBad(d, k, o) ==  \* update() goes through the same gate as item assignment
+  /\ En("dsupdate") /\ Step([op |-> "dsupdatebad", d |-> d, k |-> k, o |-> o]) /\ UNCHANGED <<heap, bufs, dgs, dss>>
+  /\ res' = Exc("TypeError")
 DsDel(d, k) ==
   /\ En("dsdel") /\ Step([op |-> "dsdel", d |-> d, k |-> k]) /\ UNCHANGED <<heap, bufs, dgs>>
   /\ IF HasKey(dss[d], k) THEN dss' = [dss EXCEPT ![d] = DRemove(dss[d], k)] /\ res' = NoRes
@@ -367,6 +370,7 @@ DsDeepCopy(d) ==
 Gs == 1..Len(dgs)
 Os == 1..Len(heap)
 PairSeqs == {<<<<k, o>>>> : k \in Keys, o \in PoolObjs} \cup {<<<<"a", o1>>, <<"b", o2>>>> : o1 \in {1, 5}, o2 \in {2, 3, 4}}
+            \cup {<<<<"b", o2>>, <<"a", o1>>>> : o1 \in {1, 5}, o2 \in {2, 7}}        \* the same items inserted in the other order
 Next ==
  /\ Len(hist) < Depth
  /\
@@ -382,7 +386,7 @@ Next ==
   \/ \E op \in OpsUse, o \in Os, rhs \in {0} \cup Os : IOpArgsOk(o, rhs) /\ IOp(op, o, rhs)
   \/ \E g, h \in Gs : DgEq(g, h)
   \/ \E d \in Ds, k \in Keys, g \in Gs : DsSet(d, k, g)
-  \/ \E d \in Ds, k \in Keys : DsSetBad(d, k, 1) \/ DsDel(d, k) \/ DsPop(d, k) \/ DsGet(d, k)
+  \/ \E d \in Ds, k \in Keys : DsSetBad(d, k, 1) \/ DsUpdateBad(d, k, 5) \/ DsDel(d, k) \/ DsPop(d, k) \/ DsGet(d, k)
   \/ \E d \in Ds : DsMeta(d, "t") \/ DsClear(d) \/ DsCopy(d) \/ DsDeepCopy(d)
   \/ \E d \in Ds, g1, g2 \in Gs : DsUpdate(d, <<<<"a", g1>>, <<"b", g2>>>>)
 Spec == Init /\ [][Next]_vars
@@ -417,7 +421,7 @@ SortIsOnePermutation ==
             /\ heap'[dgs'[g].val[k]].unit = heap[d.val[k]].unit /\ heap'[dgs'[g].val[k]].name = k]_vars
 \* C06/C20: a rejected call leaves everything as it was
 RejectedChangesNothing ==
-  [][(res'.t = "exc" /\ act'.op \in {"set", "del", "pop", "index", "slice", "iop", "dsset", "dssetbad", "dsdel", "dspop"})
+  [][(res'.t = "exc" /\ act'.op \in {"set", "del", "pop", "index", "slice", "iop", "dsset", "dssetbad", "dsupdatebad", "dsdel", "dspop"})
         => <<heap', bufs', dgs', dss'>> = <<heap, bufs, dgs, dss>>]_vars
 \* C20: every accepted insertion renames the item to its key
 NameIsKey == [][(act'.op = "set" /\ res'.t = "none") => heap'[act'.o].name = act'.k /\ dgs'[act'.g].val[act'.k] = act'.o]_vars
